@@ -1,10 +1,12 @@
 """Per-property configuration of the driver: test package, units (test regex + case counts per tier), evidence rule."""
 
 PROPS = {}
+NOT_APPLICABLE = {}  # property id -> reason, for properties deliberately not claimed
 
 
-def prop(pid, pkg, rule, units, assumptions=()):
-    PROPS[pid] = dict(pkg=pkg, rule=rule, units=units, assumptions=list(assumptions))
+def prop(pid, pkg, rule, units, assumptions=(), level="", note="", technique=""):
+    PROPS[pid] = dict(pkg=pkg, rule=rule, units=units, assumptions=list(assumptions), level=level, note=note,
+                      technique=technique)
 
 prop("C02", "c02",
      "Generated rule sets (1-3 sources x 1-4 rules x 1-2 routes over a colliding alphabet of literal / :single / *free "
@@ -18,4 +20,9 @@ prop("C02", "c02",
      [dict(run="^TestRepositoryMatchesModel$", quick=1500, thorough=12000, shards_thorough=8),
       dict(run="^TestTreeMatchesModel$", quick=4000, thorough=40000, shards_thorough=6),
       dict(run="^TestTreeExhaustiveSmall$", quick=1, thorough=1, shards_thorough=1)],
-     ["glob/regex libraries and net/url parsing are trusted", "conditions are method conditions only (path_params are C03)"])
+     ["glob/regex libraries and net/url parsing are trusted", "conditions are method conditions only (path_params are C03)"],
+     level="Randomised generated search (rule sets x load orders x paths) against an independent reference matcher plus "
+           "complete enumeration of a small expression/path universe on the radix tree; bounded exploration, no proof of absence.",
+     note="Trusted: net/url parsing, the reference matcher written from the documentation; conditions restricted to method "
+          "conditions (path_params belong to C03).",
+     technique="property-based testing: reference model + metamorphic load-order relation + bounded exhaustive enumeration")
